@@ -327,7 +327,7 @@ func (c *Check) expiredRequestRules(prefix string) {
 	bad := map[string][]string{}
 	add := func(k, msg string, pa *Path) { bad[k] = append(bad[k], msg+" (path ending "+c.pos(pa.RetPos)+")") }
 	n := 0
-	for _, pa := range c.P.PathsOf(f) {
+	for _, pa := range c.unitPaths(u.ER) {
 		n++
 		af := pa.AllFacts()
 		effs := c.pathEffects(f, pa)
@@ -367,8 +367,8 @@ func (c *Check) expiredRequestRules(prefix string) {
 			add("marker-deleted", fmt.Sprintf("expiry deletes %d by-binding and %d by-id markers (need 1 and 1 on every path)", len(del14), len(del15)), pa)
 		} else {
 			k := keyArgs(del14[0])
-			if !(len(k) == 4 && k[0].String() == "(.Request.ServiceName "+u.ER.ValP+")" && k[1].String() == "(.Request.Provider "+u.ER.ValP+")" && k[2].String() == "(.Request.ExpirationHeight "+u.ER.ValP+")" && k[3].IsAt(u.ER.IdP)) ||
-				!keyArgs(del15[0])[0].IsAt(u.ER.IdP) {
+			if !(len(k) == 4 && k[0].String() == "(.Request.ServiceName "+u.ER.ValP+")" && k[1].String() == "(.Request.Provider "+u.ER.ValP+")" && k[2].String() == "(.Request.ExpirationHeight "+u.ER.ValP+")" && u.ER.isID(k[3])) ||
+				!u.ER.isID(keyArgs(del15[0])[0]) {
 				add("marker-key", "markers deleted with keys "+fmtTerms(k)+" / "+fmtTerms(keyArgs(del15[0])), pa)
 			}
 		}
